@@ -154,11 +154,12 @@ def explore_false_child(g, child_pt, same_child, max_visits=2, limit=20000):
     return bad
 
 
-def feasible_reach(g, starts, targets, avoid=(), env0=None, limit=20000):
+def feasible_reach(g, starts, targets, avoid=(), env0=None, limit=20000, pins=None):
     """Is one of `targets` reachable from `starts` along a path that is feasible with respect to the boolean
     locals of the root function (assignments of constants / boolean expressions are tracked, branch conditions
     are evaluated three-valued, definitely-false edges are pruned)?  Returns the path or None."""
     f = g.func
+    pins = pins or {}
     tids = {t.id for t in targets}
     aids = {a.id for a in avoid}
     seen = set()
@@ -182,17 +183,17 @@ def feasible_reach(g, starts, targets, avoid=(), env0=None, limit=20000):
                     d = [d for d in n['decls'] if d['id'] == vid][0]
                     if 'init' in d and is_bool_var_type(d['t']):
                         env = dict(env)
-                        env[vid] = eval3(f, d['init'], env, {})
+                        env[vid] = eval3(f, d['init'], env, pins)
                 elif n['k'] == 'binop' and n['op'] == '=':
                     if is_bool_var_type(f.nodes[n['lhs']].get('t') or ''):
                         env = dict(env)
-                        env[vid] = eval3(f, n['rhs'], env, {})
+                        env[vid] = eval3(f, n['rhs'], env, pins)
                 elif vid in env:
                     env = dict(env)
                     env[vid] = U
         for (q, lab) in p.succ:
             if lab and isinstance(lab[0], int) and lab[1] is f and p.ctx is g.root_ctx:
-                cv = eval3(f, lab[0], env, {})
+                cv = eval3(f, lab[0], env, pins)
                 if cv is not U and cv != lab[2]:
                     continue
             stack.append((q, env, path + [q] if len(path) < 80 else path))
@@ -249,9 +250,11 @@ def feasible_armed_reach(g, arm, disarm, targets, limit=40000):
     return None
 
 
-def returns_under_pins(g, pins, limit=20000):
+def returns_under_pins(g, pins, limit=20000, assign_at=None):
     """Three-valued values the root function can return when the results of the calls in `pins` (node idx -> T/F) are
-    fixed: every feasible path from the entry is walked (boolean locals tracked, definitely-false edges pruned)."""
+    fixed: every feasible path from the entry is walked (boolean locals tracked, definitely-false edges pruned).
+    assign_at: node idx -> {var id: T/F}: what a call stores into its boolean out-parameters."""
+    assign_at = assign_at or {}
     f = g.func
     out = set()
     seen = set()
@@ -282,6 +285,9 @@ def returns_under_pins(g, pins, limit=20000):
                 elif vid in env:
                     env = dict(env)
                     env[vid] = U
+            if n['i'] in assign_at:
+                env = dict(env)
+                env.update(assign_at[n['i']])
             if n['k'] == 'return':
                 out.add(eval3(f, n.get('e'), env, pins) if n.get('e') is not None else U)
                 continue
